@@ -1,7 +1,7 @@
 /-
   Handlers/HC18.lean — driver request of property C18 (hierarchical on_final):
 
-    c18 <defs> <machine cbs> <machine has attribute `final`> <roots> <E>
+    c18 <defs> <machine cbs> <roots> <E>
         defs     list of (id, final, on_final callback ids)
         roots    list of trees; tree = id, list of trees        (the OBSERVED configuration)
         E        list of ids                                    (the OBSERVED entered set)
@@ -29,15 +29,14 @@ def sdef : P (Nat × Bool × List Nat) := do
   let id ← nat; let f ← bool; let cbs ← nats
   pure (id, f, cbs)
 
-def mkDefs (ds : List (Nat × Bool × List Nat)) (mcbs : List Nat) (mfa : Bool) : Defs :=
+def mkDefs (ds : List (Nat × Bool × List Nat)) (mcbs : List Nat) : Defs :=
   { final := fun s => match ds.find? (fun d => d.1 = s) with
       | some d => d.2.1
       | none => false
     onFinal := fun s => match ds.find? (fun d => d.1 = s) with
       | some d => d.2.2
       | none => []
-    machineOnFinal := mcbs
-    machineFinalAttr := mfa }
+    machineOnFinal := mcbs }
 
 def encOwner : Owner → Nat
   | .machine => 0
@@ -53,10 +52,9 @@ def nodupNats : List Nat → Bool
 def request : P String := do
   let ds ← list sdef
   let mcbs ← nats
-  let mfa ← bool
   let roots ← list (tree 64)
   let E ← nats
-  let D := mkDefs ds mcbs mfa
+  let D := mkDefs ds mcbs
   let sp := expected D E roots
   let c := match finalCheckRoot D E roots with
     | .ok os => 0 :: (encNats (os.map encOwner) ++ encNats (runCalls D os))
